@@ -21,6 +21,8 @@ func main() {
 		resourceMain(os.Args[2:])
 	case "filter":
 		filterMain(os.Args[2:])
+	case "range":
+		rangeMain(os.Args[2:])
 	case "schema":
 		schemaMain(os.Args[2:])
 	default:
